@@ -69,14 +69,18 @@ func (rm *ResourceManagement) OnRequestDrop(APIStream publicTypes.APIStreamI) {
 		log.Debug().Msgf("Could not locate quota resource with ID %s", APIStream.GetID())
 		return
 	}
-	quotaObj, ok := outVal.(publicTypes.QuotaResourceI)
+	quotaObjs, ok := outVal.([]publicTypes.QuotaResourceI)
 	if !ok {
 		log.Debug().Msgf("Could not convert quota resource with ID %s", APIStream.GetID())
 		return
 	}
 
-	if err := (quotaObj).Dec(APIStream); err != nil {
-		log.Warn().Err(err).Msgf("Failed to decrement quota for request %s", APIStream.GetID())
+	// A transaction may have consulted several quotas (e.g. two Limiter processors):
+	// every one of them gets its slot back.
+	for _, quotaObj := range quotaObjs {
+		if err := quotaObj.Dec(APIStream); err != nil {
+			log.Warn().Err(err).Msgf("Failed to decrement quota for request %s", APIStream.GetID())
+		}
 	}
 }
 
@@ -98,15 +102,33 @@ func (rm *ResourceManagement) GetQuota(
 	}
 
 	if reqID != "" {
-		if !rm.reqIDToQuota.Exists(reqID) {
-			if err := rm.reqIDToQuota.Set(reqID, quotaObj); err != nil {
-				log.Debug().Err(err).
-					Msgf("Failed to set quota resource with ID %s for request %s", quotaID, reqID)
-			}
-		}
+		rm.rememberQuotaOfRequest(reqID, quotaID, quotaObj)
 	}
 
 	return quotaObj, nil
+}
+
+// rememberQuotaOfRequest keeps every quota a request consulted, for OnRequestDrop.
+func (rm *ResourceManagement) rememberQuotaOfRequest(
+	reqID string,
+	quotaID string,
+	quotaObj publicTypes.QuotaResourceI,
+) {
+	quotaObjs := []publicTypes.QuotaResourceI{}
+	if current, err := rm.reqIDToQuota.Get(reqID); err == nil {
+		if known, ok := current.([]publicTypes.QuotaResourceI); ok {
+			quotaObjs = known
+		}
+	}
+	for _, known := range quotaObjs {
+		if known == quotaObj {
+			return
+		}
+	}
+	if err := rm.reqIDToQuota.Set(reqID, append(quotaObjs, quotaObj)); err != nil {
+		log.Debug().Err(err).
+			Msgf("Failed to set quota resource with ID %s for request %s", quotaID, reqID)
+	}
 }
 
 func (rm *ResourceManagement) UpdateQuota(
